@@ -15,6 +15,7 @@ import CSD.Lemmas.HashRPF
 import CSD.Lemmas.CodecRoundTrip
 import CSD.Lemmas.FM11
 import CSD.Lemmas.RPFC6
+import CSD.Lemmas.RPDAC2
 
 namespace CSD.Props.C01
 open CSD CSD.PFC
@@ -289,5 +290,29 @@ theorem rpfc_models_match_source_text :
     Generated.body_RPFC_searchPrefix = SourceText.body_RPFC_searchPrefix ∧
     Generated.body_RPFC_searchDistinctPrefix = SourceText.body_RPFC_searchDistinctPrefix :=
   ⟨rfl, rfl, rfl, rfl, rfl, rfl, rfl, rfl, rfl, rfl⟩
+
+/-! ### Both round trips, stated as one bijection, for RPFC and RPDAC -/
+
+/-- **RPFC round trip**: over any grammar and symbol streams that store the dictionary, the `i`-th member is
+located at ID `i + 1` and ID `i + 1` extracts to exactly the `i`-th member — `extract` is a bijection from
+`[1, n]` onto `S` with inverse `locate`. -/
+theorem rpfc_round_trip {S : List Str} {d : RPFC.D} (hst : RPFC.Stores S d) (hv : validDict S = true)
+    (i : Nat) (hi : i < S.length) :
+    RPFC.locate d S[i] = some (i + 1) ∧ RPFC.extract d (i + 1) = some (some S[i]) := by
+  obtain ⟨hne, hn, hs, _⟩ := PFC.validDict_facts hv
+  refine ⟨?_, ?_⟩
+  · rw [RPFC.locate_stores hst S[i] hne hn (hn _ (List.getElem_mem hi)) hs, Spec.locate_getElem hs i hi]
+  · rw [RPFC.extract_stores hst (i + 1) (by omega) (by omega)]
+    simp [List.getElem?_eq_getElem hi]
+
+/-- **RPDAC round trip**: over any well-founded grammar and sequences representing the dictionary. -/
+theorem rpdac_round_trip (d : RPDAC.D) (S : List Str) (r : RPDAC.Represents d S) (hv : validDict S = true)
+    (i : Nat) (hi : i < S.length) :
+    RPDAC.locate d (RPDAC.bytesNat S[i]) = some (i + 1) ∧ RPDAC.extract d (i + 1) = some (RPDAC.bytesNat S[i]) := by
+  obtain ⟨_, hn, hs, _⟩ := PFC.validDict_facts hv
+  refine ⟨?_, ?_⟩
+  · rw [RPDAC.locate_represents d S r hn hs S[i] (hn _ (List.getElem_mem hi)), Spec.locate_getElem hs i hi]
+  · rw [RPDAC.extract_represents d S r (i + 1), dif_pos ⟨by omega, by omega⟩]
+    simp
 
 end CSD.Props.C01
